@@ -27,7 +27,9 @@ TRUSTED = [
     "asyncio assumptions A1 (no preemption between suspension points) and A3 (ContextVar is per task) - exercised on the real loop, not proved",
     "harness: gate scheduler and 1/40 s timer grid (harness/txsched.py), virtual clock (harness/vtime.py); the gathered unlocks of one "
     "transaction are released in lock-key order",
-    "values are integers, no TTLs inside transactions (C03/C04 cover the overlay's value/TTL semantics)",
+    "values are integers; TTLs are not modelled (C03/C04 cover the overlay's value/TTL semantics): `expire` is given TTLs of 1-2 h, "
+    "far beyond any run, and is compared as what it does to values (buffer the backend's current value under the key's lock); the "
+    "set_many commands of one commit (one per TTL group, issued back to back) are scheduled and compared as one step",
 ]
 
 
@@ -78,6 +80,8 @@ def canon_outcome(out) -> str:
 
 
 def op_word(op) -> str:
+    if op[0] == "expire":
+        return f"expire:{op[1]}"          # the model has no TTLs
     return ":".join(str(x) for x in op)
 
 
@@ -100,8 +104,9 @@ def attempts(timeout_u: int) -> int:
     return (timeout_u + 3) // 4
 
 
-def spec_body(ops, reads):
-    """sequential meaning of a transaction body, given what its backend reads returned"""
+def spec_body(ops, reads, retimed=None):
+    """sequential meaning of a transaction body, given what its backend reads returned
+    (`retimed`, statistics only: collects the keys whose buffered value came from the backend read of an `expire`)"""
     ov, dl, res = {}, set(), []
     it = iter(reads)
     try:
@@ -126,6 +131,16 @@ def spec_body(ops, reads):
             elif op[0] == "del":
                 ov.pop(op[1], None)
                 dl.add(op[1])
+            elif op[0] == "expire":
+                # re-time the key: nothing to do for a deleted or already buffered key; else the backend's current value
+                # (if there is one) is buffered, to be written back with the new TTL
+                k = op[1]
+                if k not in dl and k not in ov:
+                    cur = next(it)
+                    if cur is not None:
+                        ov[k] = cur
+                        if retimed is not None:
+                            retimed.add(k)
             elif op[0] == "raise":
                 return ("raise", ov, dl, res)
     except StopIteration:
@@ -165,7 +180,7 @@ def oracle(case, res):
             for op in flat:
                 if op[0] == "raise":
                     break
-                name = {"set": "set", "incr": "incr", "get": "get", "del": "delete"}[op[0]]
+                name = {"set": "set", "incr": "incr", "get": "get", "del": "delete", "expire": "expire"}[op[0]]
                 exp_labels.append(f"{name}:{op[1]}")
                 if j < len(st):
                     lab, b, a, _, _, _ = st[j]
@@ -178,6 +193,8 @@ def oracle(case, res):
                         exp_res.append(want[k])
                     elif op[0] == "get":
                         exp_res.append(b.get(k))
+                    elif op[0] == "expire":
+                        pass                      # no value changes
                     else:
                         want.pop(k, None)
                     if a != want:
@@ -206,7 +223,13 @@ def oracle(case, res):
                 break
             tail += 1
         locked_out = tail > 0 and tail == attempts(p["timeout"])
-        kind, ov, dl, rs = spec_body(flat, reads)
+        retimed = set()
+        kind, ov, dl, rs = spec_body(flat, reads, retimed)
+        if retimed:
+            stats["expire_buffers_backend_value"] = 1
+            fails0 = sum(1 for a, b in zip(labels, labels[1:]) if a.startswith("set_lock:") and b == a)
+            if fails0 and p["mode"] != "fast":
+                stats["expire_in_tx_with_lock_wait"] = 1
         if locked_out:
             kind = "locked"
             stats["locked_error"] = 1
@@ -249,17 +272,23 @@ def oracle(case, res):
         stats["beyond_timeout"] = 1
     # ---- no lost increments
     for k in range(NKEYS):
-        users = [(i, op) for i, p in enumerate(progs) for op in p["ops"] if op[0] in ("set", "incr", "del") and op[1] == k]
-        if not users or any(op[0] != "incr" or progs[i]["kind"] != "tx" for i, op in users):
+        # a counter: transactions only increment it or re-time it (`expire` contributes 0), nobody else writes it
+        writers = [(i, op) for i, p in enumerate(progs) for op in p["ops"] if op[0] in ("set", "incr", "del") and op[1] == k]
+        retimers = [(i, op) for i, p in enumerate(progs) for op in p["ops"]
+                    if op[0] == "expire" and op[1] == k and p["kind"] == "tx"]
+        users = writers + retimers
+        if not users or any(op[0] != "incr" or progs[i]["kind"] != "tx" for i, op in writers):
             continue
-        total = sum(op[2] for i, op in users if outs[i].startswith("ret:"))
+        total = sum(op[2] for i, op in writers if outs[i].startswith("ret:"))
         init = int(case["init"].get(k, case["init"].get(str(k), 0)) or 0)
         final = res["final"].get(k)
-        committed = any(outs[i].startswith("ret:") for i, _ in users)
+        committed = any(outs[i].startswith("ret:") for i, _ in writers)
         present = k in case["init"] or str(k) in case["init"]
         lost = final != ((init + total) if (present or committed) else None)
         if len({i for i, _ in users}) >= 2:
             stats["shared_counter"] = 1
+        if retimers and writers and len({i for i, _ in users}) >= 2:
+            stats["counter_incremented_and_retimed"] = 1
         if lost and modes == {"fast"}:
             stats["fast_lost_update"] = 1
         if lost and len(modes) == 1 and modes <= {"locked", "serializable"} and not all_within:
@@ -326,6 +355,8 @@ def oracle(case, res):
             if a < b and (progs[a]["mode"], progs[a]["timeout"]) == (progs[b]["mode"], progs[b]["timeout"]) and steps[a] and steps[b]:
                 if steps[a][0][5] < steps[b][-1][5] and steps[b][0][5] < steps[a][-1][5]:
                     stats["one_decorated_function_overlapping_calls"] = 1
+    if res.get("merged_groups"):
+        stats["commit_with_several_ttl_groups"] = 1
     return bad, stats
 
 
@@ -510,6 +541,16 @@ def exhaustive_families():
                      {0: 5}, [tx(mode, [["set", 1, 1], ["incr", 0, 2]], "dec", 40),
                               tx(mode, [["nin", "dec"], ["incr", 0, 1], ["nout"], ["get", 1]], "dec", 40),
                               plain([["set", 2, 9], ["get", 0]])], mode == "fast"))
+    for mode in ("fast", "locked", "serializable"):
+        # `expire` inside a transaction is a read-modify-write (the backend's value is buffered and written back)
+        fams.append((f"{mode}: a call incrementing a counter against a call that re-times (expire) and then increments it",
+                     {0: 1}, [tx(mode, [["incr", 0, 1]], "dec", 40), tx(mode, [["expire", 0], ["incr", 0, 2]], "dec", 40)], True))
+        fams.append((f"{mode}: re-timing only (present, absent and just-deleted key) against an incrementing call",
+                     {0: 1, 2: 5}, [tx(mode, [["incr", 0, 1]], "dec", 40),
+                                    tx(mode, [["expire", 0], ["expire", 1], ["del", 2], ["expire", 2]], "ctx", 40)], True))
+        fams.append((f"{mode}: re-timing with two TTLs, of a key written in the block too, against a plain re-timer/reader",
+                     {0: 1}, [tx(mode, [["expire", 0, 7200], ["set", 1, 4], ["expire", 1], ["incr", 0, 1]], "ctx", 40),
+                              plain([["expire", 0], ["incr", 0, 10], ["get", 1]])], True))
     fams.append(("locked: opposite lock order with a short timeout (deadlock broken by LockedError)",
                  {}, [tx("locked", [["incr", 0, 1], ["incr", 1, 1]], "dec", 20), tx("locked", [["incr", 1, 1], ["incr", 0, 1]], "dec", 20)], True))
     fams.append(("serializable: holder sleeps past a short timeout (lease expires)",
@@ -530,14 +571,16 @@ def gen_ops(rng, in_tx: bool, nmax: int):
     for _ in range(rng.randint(1, nmax)):
         r = rng.random()
         k = rng.choice([0, 0, 0, 1, 1, 2, 3][: 7])
-        if r < 0.38:
+        if r < 0.34:
             ops.append(["incr", k, rng.choice([1, 1, 2, -1, 3])])
-        elif r < 0.55:
+        elif r < 0.49:
             ops.append(["set", k, rng.randint(-2, 9)])
-        elif r < 0.70:
+        elif r < 0.62:
             ops.append(["get", k])
-        elif r < 0.80:
+        elif r < 0.71:
             ops.append(["del", k])
+        elif r < 0.80:
+            ops.append(["expire", k] if rng.random() < 0.7 else ["expire", k, 7200])
         elif r < 0.87:
             ops.append(["sleep", rng.choice([1, 1, 2, 4, 8])])
         elif r < 0.90:
@@ -565,18 +608,19 @@ def gen_case(rng, ntasks_max: int, style: int):
         to = to0 if uniform or rng.random() < 0.5 else rng.choice([20, 40, 400])
         form = rng.choice(["dec", "dec", "ctx"])
         if style == 1:
-            # counter workload: only increments (and reads / sleeps) so that the no-lost-increments statement applies
+            # counter workload: only increments and re-timings (and reads / sleeps) so that the no-lost-increments statement applies
             ops = []
             for _ in range(rng.randint(1, 4)):
                 r = rng.random()
-                ops.append(["incr", rng.choice([0, 0, 1]), rng.choice([1, 2, 1, -1])] if r < 0.7 else
-                           ["get", rng.choice([0, 1])] if r < 0.85 else ["sleep", rng.choice([1, 2])] if r < 0.95 else ["raise"])
+                ops.append(["incr", rng.choice([0, 0, 1]), rng.choice([1, 2, 1, -1])] if r < 0.55 else
+                           ["expire", rng.choice([0, 0, 1])] if r < 0.73 else
+                           ["get", rng.choice([0, 1])] if r < 0.86 else ["sleep", rng.choice([1, 2])] if r < 0.95 else ["raise"])
             if rng.random() < 0.3:
                 ops = [["nin", rng.choice(["dec", "ctx"])]] + ops + [["nout"]]
         else:
             ops = gen_ops(rng, True, 6)
         programs.append(tx(mode, ops, form, to))
-    init = {k: rng.randint(0, 5) for k in range(NKEYS) if rng.random() < 0.4}
+    init = {k: rng.randint(0, 5) for k in range(NKEYS) if rng.random() < (0.4 if style != 1 else 0.6)}
     schedule = [rng.randint(0, 3) if rng.random() < 0.8 else 0 for _ in range(rng.randint(5, 80))]
     return {"init": init, "programs": programs, "schedule": schedule}
 
